@@ -23,7 +23,7 @@ RULE = ('random positions world-wide inside the TM band (NSW longitudes for ISG)
 ASSUMPTIONS = ['the functional conversions themselves are judged by C01/C02/C03/C08', 'angle_exact for the denoted latitude/longitude']
 N = {'quick': 600, 'thorough': 10000}
 SHARDS = {'quick': 16, 'thorough': 32}
-REQUIRED_COUNTERS = ['source_objects_checked', 'reused_sources', 'alias_conversions', 'op:geo.cart', 'op:cart.geo', 'op:geo.tm', 'op:tm.geo', 'op:geo.notation', 'op:cart.tm', 'op:tm.cart',
+REQUIRED_COUNTERS = ['source_objects_checked', 'results_edited_by_caller', 'reused_sources', 'alias_conversions', 'op:geo.cart', 'op:cart.geo', 'op:geo.tm', 'op:tm.geo', 'op:geo.notation', 'op:cart.tm', 'op:tm.cart',
                      'chains_closed', 'nval_zero_cases', 'height_zero_cases']
 NOTATIONS = ['float'] + ax.ANGLE_CLASSES
 HSTATES = ['absent', 'zero', 'value']
@@ -87,8 +87,12 @@ def gen_start(rnd):
         except (ValueError, OverflowError, ZeroDivisionError):
             pass
 
+    high = rnd.random() < 0.08       # a satellite or an ocean-floor position: heights of other magnitudes travel the same way
+
     def hs():
         s = rnd.choice(HSTATES)
+        if s not in ('absent', 'zero') and high:
+            return round(rnd.choice([-1.0e4, 1.0e5, 4.08e5, 2.02e7, 3.5786e7, 10 ** rnd.uniform(4, 7.6)]) * rnd.uniform(0.9, 1.0), 3)
         return None if s == 'absent' else (0.0 if s == 'zero' else round(rnd.uniform(-100, 3000), 3))
     st = {'ell': ell, 'prj': prj, 'lat': lat, 'lon': lon, 'h': hs(), 'H': hs(), 'notation': rnd.choice(NOTATIONS)}
     if rnd.random() < 0.3:
@@ -187,7 +191,8 @@ class Judge:
         if tname(got) != notation:
             return False
         if notation in ('float', 'DECAngle'):
-            return float(got) == float(dec_value) if notation == 'float' else got.dec_angle == float(dec_value)
+            return float(got) == float(dec_value) if notation == 'float' else \
+                (got.dec_angle == float(dec_value) and ax.float_value_mismatch(got) is None)
         return abs(den(got) - Fraction(float(dec_value))) <= ax.TOL_DEG
 
     def geo_tm(self, g, case):
@@ -242,7 +247,8 @@ class Judge:
         if tname(r.lat) != notation or tname(r.lon) != notation:
             self.v('CoordGeo.notation:wrong-type', case, {'got': [tname(r.lat), tname(r.lon)], 'want': notation})
             return r
-        if abs(den(r.lat) - den(g.lat)) > ax.TOL_DEG or abs(den(r.lon) - den(g.lon)) > ax.TOL_DEG:
+        if abs(den(r.lat) - den(g.lat)) > ax.TOL_DEG or abs(den(r.lon) - den(g.lon)) > ax.TOL_DEG \
+                or ax.float_value_mismatch(r.lat) or ax.float_value_mismatch(r.lon):
             self.v('CoordGeo.notation:position-changed', case, {'before': [repr(g.lat), repr(g.lon)], 'after': [repr(r.lat), repr(r.lon)]})
         if (r.ell_ht, r.orth_ht) != (g.ell_ht, g.orth_ht):
             self.v('CoordGeo.notation:heights-not-carried', case, {'before': [g.ell_ht, g.orth_ht], 'after': [r.ell_ht, r.orth_ht]})
@@ -363,6 +369,20 @@ def run_chain(ns, ctx, start, ops, rec=True):
         ctx.count('source_objects_checked')
         if snapshot(src) != before:
             ctx.violation('%s.%s:source-object-changed' % (type(src).__name__, name), case, {'before': before, 'after': snapshot(src)})
+        else:
+            # ... also when the caller goes on to edit what it got back (strips or sets the heights of its copy)
+            saved = dict(vars(nxt))
+            try:
+                for k in ('ell_ht', 'orth_ht', 'nval'):
+                    if k in saved:
+                        setattr(nxt, k, None if saved[k] is not None else 1.25)
+                ctx.count('results_edited_by_caller')
+                if snapshot(src) != before:
+                    ctx.violation('%s.%s:result-shares-state-with-its-source' % (type(src).__name__, name), case,
+                                  {'source_before': before, 'source_after_result_was_edited': snapshot(src), 'same_object': nxt is src})
+            finally:
+                vars(nxt).clear()
+                vars(nxt).update(saved)
         if len(op) > 2 and op[2] == 'reuse':
             # the same source converted a second time must give the same result
             again = None
@@ -406,14 +426,14 @@ def run_chain(ns, ctx, start, ops, rec=True):
         ctx.violation('chain:does-not-return-to-start', case, {'start_xyz': list(p0), 'end_xyz': list(p1), 'dist_m': d})
 
 
-def gen_ops(rnd, n):
+def gen_ops(rnd, n, no_tm=False):
     ops = []
     kind = 'geo'
     for _ in range(n):
         if kind == 'geo':
-            name = rnd.choice(['cart', 'tm', 'notation', 'notation'])
+            name = rnd.choice(['cart', 'cart', 'notation'] if no_tm else ['cart', 'tm', 'notation', 'notation'])
         elif kind == 'cart':
-            name = rnd.choice(['geo', 'geo', 'tm'])
+            name = rnd.choice(['geo'] if no_tm else ['geo', 'geo', 'tm'])
         else:
             name = rnd.choice(['geo', 'geo', 'cart'])
         if name in ('geo', 'notation'):
@@ -444,7 +464,13 @@ def run_shard(spec, ctx):
             run_chain(ns, ctx, st, [['notation', dst], ['cart'], ['geo', src], ['tm'], ['cart'], ['tm'], ['geo', dst]])
     for i in range(spec['n']):
         st = gen_start(rnd)
-        ops = gen_ops(rnd, rnd.randint(2, 8))
+        # far above the ellipsoid (satellites) the chains run between Cartesian and geographic form only: a grid coordinate
+        # is rounded to 0.1 mm *on the ellipsoid*, which is more than 0.3 mm at 36 000 km - the closure bound is a statement
+        # about terrestrial heights wherever a projected step is involved
+        hi = any(v is not None and abs(v) > 1.0e4 for v in (st['h'], st['H']))
+        if hi:
+            ctx.count('chains_far_above_or_below_the_ellipsoid(no projected step)')
+        ops = gen_ops(rnd, rnd.randint(2, 8), no_tm=hi)
         if i < 2:
             ctx.sample({'start': st, 'ops': ops})
         run_chain(ns, ctx, st, ops)
